@@ -38,8 +38,23 @@ PROP = dict(
         "the harness uses real 200-300 ms waits and histories whose verdict does not depend on scheduling for the model "
         "comparison, and judges scheduling-dependent histories against the polls actually served",
         "v1/v2 wallets cannot send (createSignedMsgBodyCell / NextMessageParams panic 'implement me'): modelled as panic",
-        "the sub-wallet id option is ignored by v1/v2 and v5r1 (no such field / not configurable in the Go API); "
-        "injectivity is stated over the fields the version's data holds",
+        "OPTIONS THAT DO NOT CHANGE THE ADDRESS (theorem address_exceptions, exhaustive): v5r1 ignores the sub-wallet id; v1/v2 "
+        "ignore sub-wallet id and network id; v3/v4/highload ignore the network id; absent sub-wallet id = explicit default "
+        "uint32(698983191+workchain) (v3/v4/highload) resp. 0 (v5 beta); absent network id = explicit -239 (v5); absent "
+        "workchain = explicit 0; workchains equal modulo 2^32 collide (int -> int32 / uint32 / uint8 conversions). The v5r1 "
+        "wallet id and the v5 beta workchain byte depend on the workchain modulo 256 only (same DATA cell for 0 and 256; the "
+        "addresses differ in the workchain field). Distinctness (address_distinct) is stated over (version, key, int32 "
+        "workchain, identFields) with pairwise distinct code hashes as a hypothesis on codeOf (checked on the 12 real cells "
+        "by the oracle go.codes.distinct on every run)",
+        "the three address APIs share newWallet / generateAddress in Go; what differs, and what address_same_all_apis is about, "
+        "is how each builds its option list (caller's list in any order with repetitions; GenerateWalletAddress's own list; "
+        "GenerateStateInit hashed by the caller) - modelled with applyOptions (last setting wins)",
+        "send_params_active / send_params_active_any_fields cover active data cells with an EMPTY plugin / extension dictionary "
+        "(any other field values); non-empty and malformed dictionaries are covered by the correspondence runs only",
+        "send_record_by_construction and the confirmation theorems are about the PROJECTION sendV2 of the send path (its Sent "
+        "record is filled by construction); dest_is_self / sent_message_carries_params are about the message-level model "
+        "sendV2Msg, which builds the external message with the C14 builders and is the model compared with RawSendV2's captured "
+        "payload (op m.raw); send_msg_refines_record ties the two",
         "mnemonic -> key: HMAC-SHA-512 / PBKDF2-SHA-512 are parameters of the theorems; the driver runs the Lean SHA-512 "
         "primitives with the REAL iteration counts (390 and 100000; about 4 s per accepted seed, so 3 accepted seeds in the "
         "quick tier, 20 in the thorough tier, plus hundreds of rejected ones) and they are validated against crypto/* per run; "
@@ -47,10 +62,16 @@ PROP = dict(
     ],
     partial=[],
     level_text="Theorems for all inputs about the Lean model: the address is (int32 workchain, H(state-init "
-               "representation)) with the state-init and data layouts of every version; the three public APIs agree; "
-               "equal addresses imply equal workchain, code hash and data hash, and (per layout family) equal key and "
-               "id fields, under explicit local collision-freedom; v5 wallet id injective in the network id; send "
-               "parameters from the account state; destination is the wallet itself; confirmation loop returns success "
+               "representation)) with the state-init and data layouts of every version; the three public APIs - each "
+               "with its own option list, the caller's in any order and with repetitions - compute the same address "
+               "(address_same_all_apis, options_order_irrelevant); composed end to end under explicit local "
+               "collision-freedom and pairwise distinct code hashes: the same address implies the same version, key, int32 "
+               "workchain and identifying data fields (address_distinct, different_wallets_different_addresses), with the "
+               "options that do NOT change the address listed as witnesses (address_exceptions); v5 wallet id injective in "
+               "the effective network id; send parameters from the account state for any field contents "
+               "(send_params_active_any_fields); the message handed to SendMessage - built by the C14 builders - decodes to "
+               "the wallet's own address as destination, the init flag and seqno of NextMessageParams and the requested "
+               "messages (dest_is_self, sent_message_carries_params: decode after build on the captured message); confirmation loop returns success "
                "iff a poll before the deadline shows a larger seqno without error (false on the code before the fix: "
                "negation proved on a witness, replayed on Go). The model is tied to the Go code by bit-exact "
                "correspondence of addresses/state-inits and of the decoded captured payloads and results on every run.",
